@@ -4,7 +4,9 @@ import Ecal.Gen.C17
 /-!
 Model driver of C17. Payloads (space separated, strings hex encoded, `-` = empty):
 
-* `P <a> <b>` — the path primitives: result `<Clean a> <Join a b> <Rel a b | ERR>`.
+* `P <a> <b>` — the path primitives: result `<Clean a> <Join a b> <Rel a b | ERR>`, computed by the
+  BYTE-level `cleanBytes` / `joinBytes` / `relBytes`; R / I / N / T / U / V lines run `resolveBytes`
+  (proved equal to the element-level functions of the property theorems, Lemmas/PathBytes.lean).
 * `R|I|N <cwd> <files> <root> <rootpos> <pre|~> <depth> <alphabet>` — `Resolve` (directly / through
   an `import` statement / through an import with the provider's default locator): the paths are
   `pre` followed by every sequence of exactly `depth` alphabet elements, joined by `/` (`~` = no
@@ -87,7 +89,7 @@ def findIdx (files : List Pos) (p : Pos) : Option Nat :=
 
 /-- `(opened, result)`; `detail`: separate the locator's rejection from the error of `Rel` -/
 def outcome (cwd : Pos) (files : List Pos) (detail : Bool) (root p : Str) : List Str × String :=
-  match resolve root p with
+  match resolveBytes root p with
   | .opened q =>
     let pos := walkStr cwd q
     match findIdx files pos with
@@ -166,7 +168,7 @@ def runCase (payload : String) : String :=
   | ["P", a, b] =>
     match hexDecode a, hexDecode b with
     | some a, some b =>
-      hexEnc (cleanStr a) ++ " " ++ hexEnc (joinStr a b) ++ " " ++ optStr (relStr a b) ++ "\tnt=1"
+      hexEnc (cleanBytes a) ++ " " ++ hexEnc (joinBytes a b) ++ " " ++ optStr (relBytes a b) ++ "\tnt=1"
     | _, _ => "bad-payload"
   | [kind, cwd, files, root, _rootpos, src, path] =>
     if kind ≠ "J" ∧ kind ≠ "j" then "bad-payload" else
